@@ -187,3 +187,71 @@ extern "C" void L_divru_i3(const int *a, const int *b, int *out) { auto r = divR
 extern "C" void R_divru_i3(const int *a, const int *b, int *out) { EL3((a[i] + b[i] - 1) / b[i]) }
 extern "C" unsigned long L_longprod_i3(const int *a) { return vec3i(a).long_product(); }
 extern "C" unsigned long R_longprod_i3(const int *a) { return (unsigned long)(a[0]) * (unsigned long)(a[1]) * (unsigned long)(a[2]); }
+
+// ---- padded shape, operands taken from memory as they are (whatever bytes the padding holds): the result of every
+// operation on vec_t<T,3,true> must be a function of x, y, z only
+#define PADDED(T, V, ID)                                                                                             \
+  extern "C" T L_mem_dot_##ID(const V *a, const V *b) { return dot(*a, *b); }                                        \
+  extern "C" T R_mem_dot_##ID(const V *a, const V *b) { return a->x * b->x + a->y * b->y + a->z * b->z; }            \
+  extern "C" T L_mem_radd_##ID(const V *a) { return reduce_add(*a); }                                                \
+  extern "C" T R_mem_radd_##ID(const V *a) { return a->x + a->y + a->z; }                                            \
+  extern "C" T L_mem_rmul_##ID(const V *a) { return reduce_mul(*a); }                                                \
+  extern "C" T R_mem_rmul_##ID(const V *a) { return a->x * a->y * a->z; }                                            \
+  extern "C" T L_mem_rmin_##ID(const V *a) { return reduce_min(*a); }                                                \
+  extern "C" T R_mem_rmin_##ID(const V *a) { return std::min(std::min(a->x, a->y), a->z); }                          \
+  extern "C" T L_mem_rmax_##ID(const V *a) { return reduce_max(*a); }                                                \
+  extern "C" T R_mem_rmax_##ID(const V *a) { return std::max(std::max(a->x, a->y), a->z); }                          \
+  extern "C" T L_mem_sum_##ID(const V *a) { return a->sum(); }                                                       \
+  extern "C" T R_mem_sum_##ID(const V *a) { return a->x + a->y + a->z; }                                             \
+  extern "C" T L_mem_product_##ID(const V *a) { return a->product(); }                                               \
+  extern "C" T R_mem_product_##ID(const V *a) { return a->x * a->y * a->z; }                                         \
+  extern "C" bool L_mem_eq_##ID(const V *a, const V *b) { return *a == *b; }                                         \
+  extern "C" bool R_mem_eq_##ID(const V *a, const V *b) { return a->x == b->x && a->y == b->y && a->z == b->z; }     \
+  extern "C" bool L_mem_anylt_##ID(const V *a, const V *b) { return anyLessThan(*a, *b); }                           \
+  extern "C" bool R_mem_anylt_##ID(const V *a, const V *b) { return a->x < b->x || a->y < b->y || a->z < b->z; }     \
+  extern "C" bool L_mem_less_##ID(const V *a, const V *b) { return std::less<V>()(*a, *b); }                         \
+  extern "C" bool R_mem_less_##ID(const V *a, const V *b)                                                            \
+  {                                                                                                                  \
+    return a->x < b->x || (a->x == b->x && (a->y < b->y || (a->y == b->y && a->z < b->z)));                          \
+  }                                                                                                                  \
+  extern "C" void L_mem_sub_##ID(const V *a, const V *b, T *out) { auto r = *a - *b; ST3(r) }                        \
+  extern "C" void R_mem_sub_##ID(const V *a, const V *b, T *out) { out[0] = a->x - b->x; out[1] = a->y - b->y; out[2] = a->z - b->z; } \
+  extern "C" void L_mem_min_##ID(const V *a, const V *b, T *out) { auto r = min(*a, *b); ST3(r) }                    \
+  extern "C" void R_mem_min_##ID(const V *a, const V *b, T *out)                                                     \
+  {                                                                                                                  \
+    out[0] = std::min(a->x, b->x); out[1] = std::min(a->y, b->y); out[2] = std::min(a->z, b->z);                     \
+  }                                                                                                                  \
+  extern "C" void L_mem_to3_##ID(const V *a, T *out) { vec_t<T, 3> r = *a; ST3(r) }                                  \
+  extern "C" void R_mem_to3_##ID(const V *a, T *out) { out[0] = a->x; out[1] = a->y; out[2] = a->z; }
+
+PADDED(float, vec3fa, f3a)
+PADDED(int, vec3ia, i3a)
+typedef vec_t<double, 3, true> vec3da_;
+PADDED(double, vec3da_, d3a)
+extern "C" void L_mem_cross_f3a(const vec3fa *a, const vec3fa *b, float *out) { auto r = cross(*a, *b); ST3(r) }
+extern "C" void R_mem_cross_f3a(const vec3fa *a, const vec3fa *b, float *out)
+{
+  out[0] = a->y * b->z - a->z * b->y;
+  out[1] = a->z * b->x - a->x * b->z;
+  out[2] = a->x * b->y - a->y * b->x;
+}
+// length / normalize of the padded shape go through dot(): squared length and the unnormalised direction
+extern "C" float L_mem_length2_f3a(const vec3fa *a) { const float l = length(*a); return l * l; }
+extern "C" float R_mem_length2_f3a(const vec3fa *a) { return a->x * a->x + a->y * a->y + a->z * a->z; }
+extern "C" double L_mem_length2_d3a(const vec3da_ *a) { const double l = length(*a); return l * l; }
+extern "C" double R_mem_length2_d3a(const vec3da_ *a) { return a->x * a->x + a->y * a->y + a->z * a->z; }
+extern "C" void L_mem_normalize_d3a(const vec3da_ *a, double *out) { auto r = normalize(*a); ST3(r) }
+extern "C" void R_mem_normalize_d3a(const vec3da_ *a, double *out)
+{
+  const double s = 1. / std::sqrt(a->x * a->x + a->y * a->y + a->z * a->z);
+  out[0] = a->x * s; out[1] = a->y * s; out[2] = a->z * s;
+}
+// mixed compound assignment: the scalar takes part in its own type (common type of T and U), the result is converted
+extern "C" void L_muleq_i3_f(const int *a, float s, int *out) { vec3i r(a); r *= s; ST3(r) }
+extern "C" void R_muleq_i3_f(const int *a, float s, int *out) { EL3(int(float(a[i]) * s)) }
+extern "C" void L_addeq_i2_d(const int *a, double s, int *out) { vec2i r(a); r += s; ST2(r) }
+extern "C" void R_addeq_i2_d(const int *a, double s, int *out) { EL2(int(double(a[i]) + s)) }
+extern "C" void L_diveq_f4_d(const float *a, double s, float *out) { vec4f r(a); r /= s; ST4(r) }
+extern "C" void R_diveq_f4_d(const float *a, double s, float *out) { EL4(float(double(a[i]) / s)) }
+extern "C" void L_subeq_i3a_f3(const int *a, const float *b, int *out) { vec3ia r(a); r -= vec3f(b); ST3(r) }
+extern "C" void R_subeq_i3a_f3(const int *a, const float *b, int *out) { EL3(int(float(a[i]) - b[i])) }
